@@ -4369,6 +4369,8 @@ impl Handler {
                 let mut acting_kg: Option<String> = current_kg.map(str::to_string);
                 // KGs created earlier in this request: the creator is their owner.
                 let mut created_here: Vec<String> = Vec::new();
+                // KGs dropped earlier in this request: a later `.kg use` of one fails.
+                let mut dropped_here: Vec<String> = Vec::new();
                 for stmt in &stmts {
                     // Determine which KG the operation targets
                     let target_kg = match stmt {
@@ -4410,19 +4412,39 @@ impl Handler {
 
                     match stmt {
                         statement::Statement::Meta(statement::MetaCommand::KgUse(name)) => {
-                            acting_kg = Some(name.clone());
+                            // Switching to a KG that does not exist (any more) fails when the
+                            // program runs and the acting KG stays what it was: the statements
+                            // after it must be checked against that KG, not the named one.
+                            let exists = created_here.iter().any(|c| c == name)
+                                || (!dropped_here.iter().any(|d| d == name)
+                                    && self
+                                        .storage
+                                        .read()
+                                        .list_knowledge_graphs()
+                                        .iter()
+                                        .any(|k| k == name));
+                            if exists {
+                                acting_kg = Some(name.clone());
+                            }
+                        }
+                        statement::Statement::Meta(statement::MetaCommand::KgDrop(name)) => {
+                            created_here.retain(|c| c != name);
+                            dropped_here.push(name.clone());
                         }
                         statement::Statement::Meta(statement::MetaCommand::KgCreate(name)) => {
                             // Creating a KG that already exists fails when the program
                             // runs: nothing is created and the acting KG does not change,
                             // so the statements after it are still checked against it.
-                            let exists = self
-                                .storage
-                                .read()
-                                .list_knowledge_graphs()
-                                .iter()
-                                .any(|k| k == name);
+                            let exists = created_here.iter().any(|c| c == name)
+                                || (!dropped_here.iter().any(|d| d == name)
+                                    && self
+                                        .storage
+                                        .read()
+                                        .list_knowledge_graphs()
+                                        .iter()
+                                        .any(|k| k == name));
                             if !exists {
+                                dropped_here.retain(|d| d != name);
                                 created_here.push(name.clone());
                                 acting_kg = Some(name.clone());
                             }
